@@ -237,7 +237,10 @@ PROPS = {
                "inmem.other_methods": ["WaitForVersionChange"]},
         conc=[dict(comp="kvconc-inmem", driver="kvlin", decisive=lambda d: d["op"].startswith("mon C02")),
               dict(comp="kvconc-redis", driver="kvlin", decisive=lambda d: d["op"].startswith("mon C02")),
-              dict(comp="rediscmd", driver="redistrace", decisive=lambda d: d["op"].startswith("mon C02") or d["op"].startswith("ret "))],
+              dict(comp="rediscmd", driver="redistrace", decisive=lambda d: d["op"].startswith("mon C02") or d["op"].startswith("ret ")),
+              # a batch with an expiring record vs a single-key writer landing after its k-th command: value and TTL of a
+              # record belong to ONE write (Go-side monitors; expiries are not in the command-level model)
+              dict(comp="redisttl", driver="monitors", decisive=lambda d: d["op"].startswith("mon C02"))],
         rule="cases = concurrent histories: 2-4 free-running threads x 2-5 operations over keys {a (75%), b} drawn from {Create, Get, Put, CasByVersion (with the version the thread saw last, or a never-issued one), Delete, GetMany with a repeated key, PutMany}, with staggered starts; in-memory: every operation's critical section is stamped by the instrumented lock and the section order is the linearization candidate; Redis (miniredis): a witness order is searched by the harness, plus 6 forced WATCH/EXEC races (a go-redis hook stops a CAS between its GET and its EXEC while another client writes); every history is emitted in witness order with invocation/response stamps and RE-VALIDATED by the Lean driver against Kv.Spec (real-time order + legality); non-trivial = two operations on one key overlapped in real time and one was a write; distinct by hash of the witness-ordered history. Redis command level (component rediscmd): 2-4 clients x 1-4 operations; a go-redis hook parks EVERY Redis command (SETNX, GET, MGET, SET, MSET, DEL, WATCH, MULTI/SET/EXEC) of every client, the scheduler releases one at a time (random choices plus 5 directed schedules: Create's SETNX/GET/SETNX retry, CAS overtaken between GET and EXEC by Put / Delete / Delete+Create, two CAS on one version); every command with its reply and every result is replayed through RedisConc.step by the Lean driver; non-trivial = an operation was invoked while another client was in the middle of its commands",
         assumptions=["WaitForVersionChange is excluded here (C07)", "no expiries in the concurrent runs (expiry is C06)", "Redis: each single command is atomic and EXEC after WATCH fails iff the key changed (miniredis / Redis semantics)"],
         trusted=["modelled, not verified: sync.Mutex (a critical section is atomic and lies between the call's invocation and response), go-redis, miniredis", "skeleton fact regenerated from inmem.go: every exported method except WaitForVersionChange is `s.lock.Lock(); defer s.lock.Unlock()`",
